@@ -86,12 +86,15 @@ pub struct UnalignedVector { pub vector: Vec<u8> }
 pub proof fn lemma_push_bit(w: u64, b: u64)
     requires b <= 1
     ensures (w << 1) <= 0xffff_ffff_ffff_fffeu64,
+        // `+`, `|` and `^` of the new low bit are the same word (so a rewrite of `word += bit` as `word |= bit` stays proved)
+        ((w << 1) | b) == ((w << 1) + b) as u64, ((w << 1) ^ b) == ((w << 1) + b) as u64,
         bit(((w << 1) + b) as u64, 0) == (b == 1),
         forall|j: int| 1 <= j < 64 ==> #[trigger] bit(((w << 1) + b) as u64, j) == bit(w, j - 1),
 {
     assert((w << 1) <= 0xffff_ffff_ffff_fffeu64) by(bit_vector);
     let x = ((w << 1) + b) as u64;
     assert(x == (w << 1) | b) by(bit_vector) requires b <= 1, x == add(w << 1, b);
+    assert(((w << 1) ^ b) == ((w << 1) | b)) by(bit_vector) requires b <= 1;
     assert(((((w << 1) | b) >> 0u64) & 1 == 1) == (b == 1)) by(bit_vector) requires b <= 1;
     assert forall|j: int| 1 <= j < 64 implies #[trigger] bit(x, j) == bit(w, j - 1) by {
         let ju = j as u64;
@@ -109,7 +112,11 @@ pub proof fn lemma_zero_bits()
 pub proof fn lemma_shift_bits(e: u64)
     ensures forall|j: int| 0 <= j < 63 ==> #[trigger] bit(e >> 1, j) == bit(e, j + 1),
         (e & 1) <= 1, (e & 1 == 1) == bit(e, 0),
+        // the arithmetic spellings of the same step
+        e / 2 == e >> 1, e % 2 == e & 1,
 {
+    assert(e / 2 == e >> 1) by(bit_vector);
+    assert(e % 2 == e & 1) by(bit_vector);
     assert((e & 1) <= 1) by(bit_vector);
     assert((e & 1) == ((e >> 0u64) & 1)) by(bit_vector);
     assert forall|j: int| 0 <= j < 63 implies #[trigger] bit(e >> 1, j) == bit(e, j + 1) by {
@@ -203,8 +210,7 @@ bool_word_(scalar.is_sign_positive())
         ensures iter__1.k == 0,
 //@hint before <<<let mut iter__1>>>
         proof { lemma_zero_bits(); }
-//@hint before <<<word <<= 1;>>>
-        let ghost w0__ = word; let ghost k0__ = iter__1.k + 1;
+//@loopstart 1
         proof { lemma_push_bit(word, if sign_pos(*scalar) { 1u64 } else { 0u64 }); }
 //@hint before <<<output.extend_from_slice>>>
         proof {
